@@ -40,7 +40,7 @@ def SyncProv (remote : PortId) (H : List SEv) : SyncSt → Prop
 def ExactSync (remote : PortId) (asym : Int) (meanDelay : Option Int) (H : List SEv) (m : Measurement) : Prop :=
   ∃ id x y raw, SendFrom remote id H x ∧ RecvFrom remote id H y ∧ Spec.rawSync x y asym = some raw ∧
     m.rawSync = some raw ∧ m.eventTime = y ∧ m.rawDelay = none ∧ m.delay = none ∧ m.peerDelay = none ∧
-    (match meanDelay with | some md => durSub raw md = m.offset | none => m.offset = none)
+    (∀ md, meanDelay = some md → durSub raw md = m.offset) ∧ (meanDelay = none → m.offset = none)
 
 theorem syncProv_measuring (remote : PortId) (H : List SEv) (id : Nat) (send recv : Option Nat) :
     SyncProv remote H (.measuring id send recv) ↔
@@ -117,12 +117,6 @@ theorem measure_after_sync_update (p p' : Port) (remote : PortId) (sy : SyncSt) 
         · intro o ho
           simp only [List.nil_append, List.mem_singleton] at ho
           exact ⟨_, ho⟩
-
-theorem orOv_ok {α β : Type} (x : Option α) (f : α → R β) (r : β) (h : orOv x f = .ok r) :
-    ∃ a, x = some a ∧ f a = .ok r := by
-  cases x with
-  | none => simp [orOv] at h
-  | some a => exact ⟨a, rfl, h⟩
 
 theorem peerIdle_withSlave (p : Port) (remote : PortId) (sy : SyncSt) (dl : DelaySt) (last : Option Int)
     (hp : PeerIdle p) : PeerIdle (p.withSlave remote sy dl last) := hp
